@@ -686,8 +686,18 @@ impl C02 {
         let direct_src = format!("\\endlinechar=-1 \n{def_src}{call_src}");
 
         let runs = [("toks", true, toks_src), ("direct", false, direct_src)];
-        for (stream, toks_mode, src) in runs.iter() {
-            let obs = match run_tex(src) {
+        let observed: Vec<Result<Obs, String>> = runs.iter().map(|(_, _, src)| run_tex(src)).collect();
+        // The known defect C02-a is only named when *every* run of the case (the exact token
+        // register as well as the handler stream) shows exactly what the unpatched trimming
+        // predicate predicts, and that differs from the patched prediction.
+        let shows_old = r.def_res == "ok"
+            && r.old != r.call
+            && runs.iter().zip(observed.iter()).all(|((_, toks_mode, _), o)| match o {
+                Ok(obs) => Self::diff(obs, *toks_mode, &r.old, &r.old_proj) == Some(None),
+                Err(_) => false,
+            });
+        for ((stream, toks_mode, src), obs) in runs.iter().zip(observed.into_iter()) {
+            let obs = match obs {
                 Ok(o) => o,
                 Err(p) => {
                     out.fail(Kind::ImplPanic, stream, format!("panic {}", strip_msg(&p)), format!("source: {src}\npanic: {p}"));
@@ -707,9 +717,6 @@ impl C02 {
             );
             // I vs M
             let (pred, proj) = if r.def_res == "ok" { (r.call.as_str(), r.call_proj.as_str()) } else { (r.def_res.as_str(), "-") };
-            // the known defect is only named when the run shows exactly what the unpatched
-            // trimming predicate predicts, and that differs from the patched prediction
-            let shows_old = r.def_res == "ok" && r.old != r.call && Self::diff(&obs, *toks_mode, &r.old, &r.old_proj) == Some(None);
             if let Some(Some(d)) = Self::diff(&obs, *toks_mode, pred, proj) {
                 let is_known = shows_old;
                 let sig = if is_known { C02A_SIG.to_string() } else { format!("{stream}: {}", d.split(':').next().unwrap_or(&d)) };
